@@ -1,6 +1,7 @@
 """Shared machinery for the snoopyctl enable/disable checks (C18, C19, C20)."""
 import itertools
 import os
+import time
 import shutil
 import subprocess
 
@@ -24,6 +25,7 @@ ALPHABET = [
     b"/pre" + PH,                         # path having the library path as suffix
     PH + b" /usr/lib/b.so",               # own entry sharing its line with another library
     b"/usr/lib/a.so\r",                   # CR-LF ending
+    b"# caf\xc3\xa9 \xff libsnoopy.so",     # comment with UTF-8 / Latin-1 bytes (0xFF is not end-of-file, >= 0x80 is not a control character)
 ]
 
 
@@ -47,10 +49,10 @@ def st_line(draw):
     if k == "ownvar":
         return PH + draw(st.sampled_from([b" ", b"\t", b"  \t ", b"# c", b" # c libsnoopy.so", b"#", b"\t#x"]))
     if k == "foreign":
-        return b"/" + draw(gen.ident_bytes(1, 8)) + b"/lib" + draw(gen.ident_bytes(1, 8)) + b".so" + draw(st.sampled_from([b"", b"", b" ", b" # c"]))
+        return b"/" + draw(st.one_of(gen.ident_bytes(1, 8), st.just(b"opt/caf\xc3\xa9"), st.just(b"usr/\xffx"))) + b"/lib" + draw(gen.ident_bytes(1, 8)) + b".so" + draw(st.sampled_from([b"", b"", b" ", b" # c"]))
     if k == "comment":
         n = draw(st.integers(0, 3))
-        parts = [draw(gen.text_bytes(0, 10)).replace(b"\n", b"")]
+        parts = [draw(st.one_of(gen.text_bytes(0, 10), st.sampled_from([b"caf\xc3\xa9", b"\xff", b"na\xefve \xe2\x86\x92", b"\x80\x81"]))).replace(b"\n", b"")]
         for _ in range(n):
             parts.append(draw(st.sampled_from([b"libsnoopy.so", PH, b"/x/libsnoopy.so"])))
             parts.append(draw(gen.text_bytes(0, 6)).replace(b"\n", b""))
@@ -92,6 +94,8 @@ class Ctl:
         if not os.path.exists(self.P):
             shutil.copy(build["lib"], self.P)
         self.file = os.path.join(workdir, "ld.so.preload")
+        self.cwd = os.path.join(workdir, "elsewhere")      # the commands never run from the directory of the file
+        os.makedirs(self.cwd, exist_ok=True)
         self.env = {"PATH": "/usr/bin:/bin", "SNOOPY_TEST_LD_SO_PRELOAD_PATH": self.file,
                     "SNOOPY_TEST_LIBSNOOPY_SO_PATH": self.P.decode(),
                     "ASAN_OPTIONS": "detect_leaks=0:abort_on_error=1", "UBSAN_OPTIONS": "abort_on_error=1:print_stacktrace=1"}
@@ -99,13 +103,27 @@ class Ctl:
     def subst(self, content):
         return None if content is None else content.replace(PH, self.P)
 
-    def put(self, content, keep_stray=False):
+    def put(self, content, keep_stray=False, old_mtime=False, symlink=False):
+        """old_mtime: the file was last changed two days ago (as a real /etc/ld.so.preload usually was);
+        symlink: ld.so.preload is a symbolic link with a RELATIVE target into a subdirectory (the commands are run from another directory)"""
         for f in os.listdir(self.dir):
             if f.startswith("ld.so.preload") and not (keep_stray and f != "ld.so.preload"):
-                os.unlink(os.path.join(self.dir, f))
+                pth = os.path.join(self.dir, f)
+                if os.path.isdir(pth) and not os.path.islink(pth):
+                    shutil.rmtree(pth, ignore_errors=True)
+                else:
+                    os.unlink(pth)
         if content is not None:
-            with open(self.file, "wb") as f:
+            target = self.file
+            if symlink:
+                os.makedirs(os.path.join(self.dir, "ld.so.preload.d"), exist_ok=True)
+                target = os.path.join(self.dir, "ld.so.preload.d", "active")
+                os.symlink("ld.so.preload.d/active", self.file)
+            with open(target, "wb") as f:
                 f.write(content)
+            if old_mtime:
+                t = time.time() - 2 * 86400
+                os.utime(target, (t, t))
 
     def get(self):
         try:
@@ -115,13 +133,13 @@ class Ctl:
             return None
 
     def stray_files(self):
-        return sorted(f for f in os.listdir(self.dir) if f.startswith("ld.so.preload") and f != "ld.so.preload")
+        return sorted(f for f in os.listdir(self.dir) if f.startswith("ld.so.preload") and f not in ("ld.so.preload", "ld.so.preload.d"))
 
     def run(self, action, timeout=20, closed=()):
         """closed: standard descriptors (0, 1, 2) the command is started WITHOUT (like `cmd >&-`)."""
         if not closed:
             p = subprocess.run([self.ctl, action], env=self.env, stdin=subprocess.DEVNULL, stdout=subprocess.PIPE,
-                               stderr=subprocess.PIPE, timeout=timeout)
+                               stderr=subprocess.PIPE, timeout=timeout, cwd=self.cwd)
             return p.returncode, p.stdout, p.stderr
 
         def pre():
@@ -131,5 +149,5 @@ class Ctl:
                 except OSError:
                     pass
         p = subprocess.run([self.ctl, action], env=self.env, stdin=subprocess.DEVNULL, stdout=subprocess.DEVNULL,
-                           stderr=subprocess.DEVNULL, timeout=timeout, preexec_fn=pre, close_fds=True)
+                           stderr=subprocess.DEVNULL, timeout=timeout, preexec_fn=pre, close_fds=True, cwd=self.cwd)
         return p.returncode, b"", b""
